@@ -71,7 +71,7 @@ def run(P, rep, tier):
     from . import c03
 
     rep.attempt(c03.r3_name_language, P, rep, ctx)
-    rep.floor("C09.R1", 60, "raw uses")
+    rep.floor("C09.R1", 45, "raw uses")
     rep.floor("C09.R2", 40)
     rep.floor("C09.R3", 3)
     rep.floor("C09.R4", 5)
